@@ -38,7 +38,9 @@ func haversineDistance(x, y []float32) float32 {
 	// Please see the formula in the link above for more details.
 	sinDlat, sinDlon := math.Sin(dlat/2), math.Sin(dlon/2)
 	a := sinDlat*sinDlat + math.Cos(latx)*math.Cos(laty)*sinDlon*sinDlon
-	c := 2 * math.Asin(math.Sqrt(a))
+	// Rounding can push a marginally above 1 for antipodal points, math.Asin
+	// would then return NaN, so we clamp the argument.
+	c := 2 * math.Asin(math.Min(1, math.Sqrt(a)))
 	return float32(earthRadius * c)
 }
 
